@@ -48,10 +48,9 @@ func VerifProviderModelListing() {
 	repo := &zzRepo{}
 	for i := 0; i < E; i++ {
 		t := types[gosym.Choice("type", len(types))]
-		st := domain.StatusHealthy
-		if gosym.Choice("healthy", 2) == 0 {
-			st = domain.StatusOffline
-		}
+		// healthy / busy / warming / offline: provider-scoped requests only go to endpoints the
+		// repository reports healthy, so a busy or warming endpoint serves nothing under the prefix
+		st := []domain.EndpointStatus{domain.StatusHealthy, domain.StatusOffline, domain.StatusBusy, domain.StatusWarming}[gosym.Choice("status", 4)]
 		u, _ := url.Parse("http://e:11434")
 		repo.all = append(repo.all, &domain.Endpoint{Name: string(rune('a' + i)), URL: u, URLString: "http://e" + string(rune('0'+i)) + ":11434", Type: t, Status: st})
 	}
